@@ -96,6 +96,8 @@ def classify(c1: str, kind: str, pipeline: str, second: str | None = None) -> st
                 return "C01:cr-in-string-through-file"
             if kind == "not-idempotent" and pred is not None and second in (pred, pred + "\n"):
                 return "C01:cr-in-string-through-file"
+    if kind == "not-idempotent" and second is not None and _reserved_word_key_dropped(c1, second):
+        return "C01:reserved-word-glued-to-number-becomes-a-key"
     if kind == "not-idempotent" and second is not None and _comment_moves_into_zone_only_block(c1, second):
         return "C01:comment-after-zone-only-block"
     if kind == "not-idempotent" and pipeline == "write-changes" and second is not None:
@@ -123,7 +125,7 @@ def classify(c1: str, kind: str, pipeline: str, second: str | None = None) -> st
 def _comment_moves_into_zone_only_block(c1: str, second: str) -> bool:
     """The two texts differ only in the indentation of comment lines, and every such line follows (through comment lines
     only) the closing fence of a literal zone that is indented deeper than the comment is in c1."""
-    a, b = c1.split("\n"), second.split("\n")
+    a, b = c1.rstrip("\n").split("\n"), second.rstrip("\n").split("\n")  # (the CLI prints one more newline)
     if len(a) != len(b) or [x.strip() for x in a] != [x.strip() for x in b]:
         return False
     diffs = [i for i, (x, y) in enumerate(zip(a, b)) if x != y]
@@ -138,6 +140,30 @@ def _comment_moves_into_zone_only_block(c1: str, second: str) -> bool:
         if len(a[j]) - len(a[j].lstrip(" ")) <= len(a[i]) - len(a[i].lstrip(" ")):
             return False
     return True
+
+
+def _reserved_word_key_dropped(c1: str, second: str) -> bool:
+    """The second text is the first one minus lines whose key is a reserved word (true:: / null: / vs::): a reserved word
+    glued to a preceding number (1true, 2.5vs) is lexed as an identifier and becomes a key, which the emitter writes bare
+    and the reader then takes for the literal / operator and drops."""
+    a, b = c1.split("\n"), second.split("\n")
+    if len(a) <= len(b):
+        return False
+    it = iter(a)
+    removed = []
+    for y in b:
+        for x in it:
+            if x == y:
+                break
+            removed.append(x)
+        else:
+            return False
+    removed += list(it)
+    return bool(removed) and all(re.fullmatch(r" *(?:true|false|null|vs)(?:::.*|:)", x) for x in removed)
+
+
+def _known_or(c1: str, second: str, sig: str) -> str:
+    return "C01:comment-after-zone-only-block" if _comment_moves_into_zone_only_block(c1, second) else sig
 
 
 def check_canonical(c1: str, pipeline: str, origin: str):
@@ -174,7 +200,7 @@ def tool_roundtrips(text: str, lenient: bool, root: str):
         else:
             r2 = tools.validate(content=cv, schema="META")
             if r2.get("status") != "success" or r2.get("canonical") != cv:
-                out.append((classify(cv, "not-idempotent", "validate-tool"),
+                out.append((classify(cv, "not-idempotent", "validate-tool", r2.get("canonical") if isinstance(r2.get("canonical"), str) else None),
                             f"octave_validate of its own canonical output differs: {str(r2.get('canonical'))!r} vs {cv!r} errors={r2.get('errors')}"))
     # ---- octave_write then normalize mode
     path = os.path.join(root, "w.oct.md")
@@ -210,7 +236,7 @@ def tool_roundtrips(text: str, lenient: bool, root: str):
 
                 if bcr != b1 or _h.sha256(bcr).hexdigest() != ncr.get("canonical_hash"):
                     res = check_canonical(bcr.decode("utf-8"), "write-normalize-crlf", b1.decode("utf-8"))
-                    out.append(res[1:] if res[0] == "fail" else ("C01:unlisted:write-normalize-crlf:file-differs-from-returned-hash",
+                    out.append(res[1:] if res[0] == "fail" else (_known_or(b1.decode("utf-8"), bcr.decode("utf-8", "replace"), "C01:unlisted:write-normalize-crlf:file-differs-from-returned-hash"),
                                                                   f"normalize of a CRLF copy of a canonical file: file bytes {bcr[:60]!r}... do not hash to canonical_hash / differ from the canonical text"))
         # ---- changes mode: delete one top-level field; what octave_write leaves must again be a fixed point
         try:
@@ -275,7 +301,7 @@ def tool_roundtrips(text: str, lenient: bool, root: str):
         with open(p2, "rb") as fh:
             cb2 = fh.read().decode("utf-8")
         if code != 0 or cb2 != cb:
-            out.append((classify(cb, "not-idempotent" if code == 0 else "reread-rejected", "cli-write2"),
+            out.append((classify(cb, "not-idempotent" if code == 0 else "reread-rejected", "cli-write2", cb2 if code == 0 else None),
                         f"CLI write of its own output: exit={code} {se!r} | {cb2!r} vs {cb!r}"))
     return out
 
